@@ -176,6 +176,64 @@ Theorem C10_empty_is_error :
 Proof. exact empty_is_error. Qed.
 Print Assumptions C10_empty_is_error.
 
+(* ---------------- end to end: id_pairs_from_delta per delta unit and mode ---------------- *)
+Theorem C10_id_pairs_frames :
+  forall (ps : list (V3 R)) das ang (delta rel_tol : R) dframes l all_pairs,
+  id_pairs_from_delta PI ps das ang delta dframes DFrames rel_tol all_pairs = Pairs l ->
+  l = pairs_by_index (length ps) dframes all_pairs.
+Proof. exact id_pairs_frames. Qed.
+Print Assumptions C10_id_pairs_frames.
+
+Theorem C10_id_pairs_meters_consecutive :
+  forall (ps : list (V3 R)) das ang (delta rel_tol : R) dframes l,
+  id_pairs_from_delta PI ps das ang delta dframes DMeters rel_tol false = Pairs l ->
+  let s := consec_steps ps in
+  let ids := chain_ids delta 0 0 s in
+  l = zip_next ids /\ chain_spec delta s 0 ids /\
+  (exists f r, ids = f :: r /\ delta <= travelled s 0 f /\ forall m, (m < f)%nat -> travelled s 0 m < delta).
+Proof. exact id_pairs_meters_consecutive. Qed.
+Print Assumptions C10_id_pairs_meters_consecutive.
+
+Theorem C10_id_pairs_meters_all_pairs :
+  forall (ps : list (V3 R)) das ang (delta rel_tol : R) dframes l,
+  id_pairs_from_delta PI ps das ang delta dframes DMeters rel_tol true = Pairs l ->
+  path_all_spec (acc_dists ps) delta (delta * rel_tol) l.
+Proof. exact id_pairs_meters_all. Qed.
+Print Assumptions C10_id_pairs_meters_all_pairs.
+
+Theorem C10_id_pairs_angle_consecutive :
+  forall (ps : list (V3 R)) das ang (delta rel_tol : R) dframes l (degrees : bool),
+  id_pairs_from_delta PI ps das ang delta dframes (if degrees then DDegrees else DRadians) rel_tol false = Pairs l ->
+  let d := to_rad degrees delta in
+  let ids := 0%nat :: chain_ids d 0 1 das in
+  0 <= delta <= (if degrees then 180 else PI) /\ l = zip_next ids /\ chain_spec d (0 :: das) 0 ids.
+Proof. exact id_pairs_angle_consecutive. Qed.
+Print Assumptions C10_id_pairs_angle_consecutive.
+
+(* exactly all pairs whose relative rotation angle lies within delta * (1 -+ tolerance) *)
+Theorem C10_id_pairs_angle_all_pairs :
+  forall (ps : list (V3 R)) das ang (delta rel_tol : R) dframes l (degrees : bool),
+  id_pairs_from_delta PI ps das ang delta dframes (if degrees then DDegrees else DRadians) rel_tol true = Pairs l ->
+  forall i j, In (i, j) l <->
+    (i < j < length ps)%nat /\
+    to_rad degrees (delta * (1 - rel_tol)) <= ang i j <= to_rad degrees (delta * (1 + rel_tol)).
+Proof. exact id_pairs_angle_all. Qed.
+Print Assumptions C10_id_pairs_angle_all_pairs.
+
+Theorem C10_id_pairs_unsupported_unit :
+  forall (ps : list (V3 R)) das ang (delta rel_tol : R) dframes all_pairs,
+  id_pairs_from_delta PI ps das ang delta dframes DOther rel_tol all_pairs = FilterError.
+Proof. exact id_pairs_other_unit. Qed.
+Print Assumptions C10_id_pairs_unsupported_unit.
+
+(* the chain specification determines the chain: any index list with the same first element that
+   meets chain_spec is the model's list *)
+Theorem C10_chain_is_unique :
+  forall (delta : R) (s : list R) (ids ids' : list nat) (from : nat),
+  chain_spec delta s from ids -> chain_spec delta s from ids' -> hd_error ids = hd_error ids' -> ids = ids'.
+Proof. exact chain_unique. Qed.
+Print Assumptions C10_chain_is_unique.
+
 (* non-vacuity: the model run in binary64 on evo's own test list (z = 0, 0.5, 1, 2.5, 3, 4) *)
 Theorem C10_float_examples :
   FloatExamples.ex_path_consecutive = [(2, 3); (3, 5)]%nat /\
